@@ -278,10 +278,11 @@ static Outcome observe(const char *prop, const std::vector<unsigned char> &bytes
     return oc;
 }
 static ustr rewrite_eol(const ustr &t, int mode, Rng &r) {
-    ustr o;
+    ustr o; size_t n_nl = 0;
     for (char16_t c : t) {
         if (c != '\n') { o += c; continue; }
         int m = mode == 3 ? (int) r.below(3) : mode;
+        if (mode == 4) m = (n_nl++ % 2 == 0) ? 1 : 0;      // CR LF and LF in turn: every blank line is a CR LF pair followed by a lone LF
         // a lone LF directly after a lone CR would read as one CR LF terminator: that is a different document, not a restyling
         if (m == 0 && !o.empty() && o.back() == u'\r') m = 1;
         if (m == 0) o += u'\n'; else if (m == 1) o += U("\r\n"); else o += u'\r';
@@ -306,6 +307,10 @@ static RunResult run_c08(const RunSpec &spec) {
             g_stats.inc("c08.defective_base");
         }
     }
+    // a quarter of the documents end with a text field made of blank lines: under the alternating CR LF / LF restyling every refill
+    // boundary inside it separates some combination of CR, LF, LF (terminator pairs split across fills, fills holding a lone LF)
+    bool blank_probe = false;
+    if (!p.doc.blocks.empty() && r.chance(1, 4)) { base += U("\n_c08_blank_lines\n;") + ustr((size_t) r.range(30, 300), u'\n') + U(";\n"); blank_probe = true; g_stats.inc("c08.blank_line_probe"); }
     ParseOpts o; o.policy = 1; o.target = 1;
     if (p.cfg.version < 2) { o.fold_mod = (int) r.range(-1, 1); o.prefix_mod = (int) r.range(-1, 1); }
     o.max_frame_depth = r.chance(1, 4) ? -1 : 1;
@@ -319,7 +324,8 @@ static RunResult run_c08(const RunSpec &spec) {
         int kind = (int) r.weighted({30, 40, 15, 15});       // 0 eol, 1 knobs, 2 padding, 3 eol+knobs
         if (spec.mods.default_knobs && (kind == 1)) kind = 0;
         ustr text = base; Knobs k; StreamCfg sc2; long shift_from = -1, shift_by = 0; std::string what;
-        if (kind == 0 || kind == 3) { int mode = (int) r.range(1, 3); text = rewrite_eol(text, mode, r); what += strprintf("eol%d ", mode); }
+        if (blank_probe && kind != 2 && r.chance(1, 2)) kind = 3;
+        if (kind == 0 || kind == 3) { int mode = (int) r.range(1, 3); if (blank_probe && r.chance(1, 2)) mode = 4; text = rewrite_eol(text, mode, r); what += strprintf("eol%d ", mode); }
         if ((kind == 1 || kind == 3) && !spec.mods.default_knobs) { k = gen_knobs(r, false); sc2.chunk = r.chance(1, 2) ? (size_t) r.range(1, 100) : 0; what += "knobs{" + k.str() + "} "; }
         if (kind == 2) {
             // insert comment-only lines at a line start inside an insignificant whitespace run
